@@ -48,4 +48,6 @@ var tags = map[int]string{
 	32: "TIME-OF-DAY",
 	33: "DATE-TIME",
 	34: "DURATION",
+	35: "OID-IRI",
+	36: "RELATIVE-OID-IRI",
 }
